@@ -65,7 +65,7 @@ package ir
 //@   ensures result == nil ==> forall(i, 0, len(m.MetadataDefs), old(mdid(m.MetadataDefs[i])) != -1 ==> mdid(m.MetadataDefs[i]) == old(mdid(m.MetadataDefs[i])))
 //@   ensures result == nil ==> forall(i, 0, len(m.MetadataDefs), mdid(m.MetadataDefs[i]) >= 0)
 //@   ensures result == nil ==> forall(i int, j int, 0 <= i && i < j && j < len(m.MetadataDefs) ==> mdid(m.MetadataDefs[i]) != mdid(m.MetadataDefs[j]))
-//@   ensures result == nil ==> forall(i int, c int, 0 <= i && i < len(m.MetadataDefs) && old(mdid(m.MetadataDefs[i])) == -1 && 0 <= c && c < mdid(m.MetadataDefs[i]) ==> exists(j, 0, len(m.MetadataDefs), mdid(m.MetadataDefs[j]) == c && (old(mdid(m.MetadataDefs[j])) != -1 || j < i)))
+//@   ensures result == nil ==> forall(i int, c int, idc(c) && 0 <= i && i < len(m.MetadataDefs) && old(mdid(m.MetadataDefs[i])) == -1 && 0 <= c && c < mdid(m.MetadataDefs[i]) ==> exists(j, 0, len(m.MetadataDefs), mdid(m.MetadataDefs[j]) == c && (old(mdid(m.MetadataDefs[j])) != -1 || j < i)), pattern(m.MetadataDefs[i], idc(c)))
 //@   loop 0: invariant 0 <= range_i && range_i <= len(m.MetadataDefs) && used != nil
 //@   loop 0: invariant forall(k, 0, len(m.MetadataDefs), mdid(m.MetadataDefs[k]) == old(mdid(m.MetadataDefs[k])))
 //@   loop 0: invariant forall(c int, mapdom(used, c) ==> used[c])
@@ -78,9 +78,9 @@ package ir
 //@   loop 1: invariant forall(k, range_i, len(m.MetadataDefs), old(mdid(m.MetadataDefs[k])) == -1 ==> mdid(m.MetadataDefs[k]) == -1)
 //@   loop 1: invariant forall(k, 0, range_i, old(mdid(m.MetadataDefs[k])) == -1 ==> 0 <= mdid(m.MetadataDefs[k]) && mdid(m.MetadataDefs[k]) <= curID && !used[mdid(m.MetadataDefs[k])])
 //@   loop 1: invariant forall(a int, b int, 0 <= a && a < b && b < range_i && old(mdid(m.MetadataDefs[a])) == -1 && old(mdid(m.MetadataDefs[b])) == -1 ==> mdid(m.MetadataDefs[a]) < mdid(m.MetadataDefs[b]))
-//@   loop 1: invariant forall(c int, 0 <= c && c <= curID ==> used[c] || exists(k, 0, range_i, old(mdid(m.MetadataDefs[k])) == -1 && mdid(m.MetadataDefs[k]) == c))
+//@   loop 1: invariant forall(c int, idc(c) && 0 <= c && c <= curID ==> used[c] || exists(k, 0, range_i, old(mdid(m.MetadataDefs[k])) == -1 && mdid(m.MetadataDefs[k]) == c), pattern(idc(c)))
 //@   loop 1: invariant forall(c int, used[c] ==> exists(j, 0, len(m.MetadataDefs), old(mdid(m.MetadataDefs[j])) != -1 && mdid(m.MetadataDefs[j]) == c))
-//@   loop 1: invariant forall(i int, c int, 0 <= i && i < range_i && old(mdid(m.MetadataDefs[i])) == -1 && 0 <= c && c < mdid(m.MetadataDefs[i]) ==> used[c] || exists(k, 0, i, old(mdid(m.MetadataDefs[k])) == -1 && mdid(m.MetadataDefs[k]) == c))
+//@   loop 1: invariant forall(i int, c int, idc(c) && 0 <= i && i < range_i && old(mdid(m.MetadataDefs[i])) == -1 && 0 <= c && c < mdid(m.MetadataDefs[i]) ==> used[c] || exists(k, 0, i, old(mdid(m.MetadataDefs[k])) == -1 && mdid(m.MetadataDefs[k]) == c), pattern(m.MetadataDefs[i], idc(c)))
 
 //@ # ---------------------------------------------------------------- C08 / C13 ---
 //@ # The ID and the unnamed flag of a named value are abstract state nvid(n), nvun(n); idwrites(0)
@@ -223,30 +223,30 @@ package ir
 //@   requires f != nil && f.GlobalID >= 0
 //@   requires forall(k, 0, len(f.Params), f.Params[k] != nil && nvid(f.Params[k]) >= 0 && wk(f.Params[k]) == 0 && wj(f.Params[k]) == k)
 //@   requires forall(b, 0, len(f.Blocks), f.Blocks[b] != nil && nvid(f.Blocks[b]) >= 0 && wk(f.Blocks[b]) == 1 && wb(f.Blocks[b]) == b)
-//@   requires forall(b int, j int, 0 <= b && b < len(f.Blocks) && 0 <= j && j < len(f.Blocks[b].Insts) ==> f.Blocks[b].Insts[j] != nil && nvid(f.Blocks[b].Insts[j]) >= 0 && wk(f.Blocks[b].Insts[j]) == 2 && wb(f.Blocks[b].Insts[j]) == b && wj(f.Blocks[b].Insts[j]) == j)
+//@   requires forall(b int, j int, 0 <= b && b < len(f.Blocks) && 0 <= j && j < len(f.Blocks[b].Insts) ==> f.Blocks[b].Insts[j] != nil && nvid(f.Blocks[b].Insts[j]) >= 0 && wk(f.Blocks[b].Insts[j]) == 2 && wb(f.Blocks[b].Insts[j]) == b && wj(f.Blocks[b].Insts[j]) == j, pattern(f.Blocks[b].Insts[j]))
 //@   requires forall(b, 0, len(f.Blocks), f.Blocks[b].Term != nil ==> nvid(f.Blocks[b].Term) >= 0 && wk(f.Blocks[b].Term) == 3 && wb(f.Blocks[b].Term) == b)
 //@   assigns caches, ghost(nvid), ghost(idwrites, 0), ghost(held, addr(f.mu))
 //@   # success: every value that consumes a number carries its rank
 //@   ensures result == nil ==> forall(k, 0, len(f.Params), nvun(f.Params[k]) ==> nvid(f.Params[k]) == lkP(f, k))
 //@   ensures result == nil ==> forall(b, 0, len(f.Blocks), nvun(f.Blocks[b]) ==> nvid(f.Blocks[b]) == lkB(f, b, boxed(types.Void)))
-//@   ensures result == nil ==> forall(b int, j int, 0 <= b && b < len(f.Blocks) && 0 <= j && j < len(f.Blocks[b].Insts) ==> cnts(f.Blocks[b].Insts[j], boxed(types.Void)) ==> nvid(f.Blocks[b].Insts[j]) == lkI(f, b, j, boxed(types.Void)))
+//@   ensures result == nil ==> forall(b int, j int, 0 <= b && b < len(f.Blocks) && 0 <= j && j < len(f.Blocks[b].Insts) ==> cnts(f.Blocks[b].Insts[j], boxed(types.Void)) ==> nvid(f.Blocks[b].Insts[j]) == lkI(f, b, j, boxed(types.Void)), pattern(f.Blocks[b].Insts[j]))
 //@   ensures result == nil ==> forall(b, 0, len(f.Blocks), cnts(f.Blocks[b].Term, boxed(types.Void)) ==> nvid(f.Blocks[b].Term) == lkT(f, b, boxed(types.Void)))
 //@   # values that consume no number (named, void, not a value) are never touched
 //@   ensures forall(k, 0, len(f.Params), !nvun(f.Params[k]) ==> nvid(f.Params[k]) == old(nvid(f.Params[k])))
 //@   ensures forall(b, 0, len(f.Blocks), !nvun(f.Blocks[b]) ==> nvid(f.Blocks[b]) == old(nvid(f.Blocks[b])))
-//@   ensures forall(b int, j int, 0 <= b && b < len(f.Blocks) && 0 <= j && j < len(f.Blocks[b].Insts) ==> !cnts(f.Blocks[b].Insts[j], boxed(types.Void)) ==> nvid(f.Blocks[b].Insts[j]) == old(nvid(f.Blocks[b].Insts[j])))
+//@   ensures forall(b int, j int, 0 <= b && b < len(f.Blocks) && 0 <= j && j < len(f.Blocks[b].Insts) ==> !cnts(f.Blocks[b].Insts[j], boxed(types.Void)) ==> nvid(f.Blocks[b].Insts[j]) == old(nvid(f.Blocks[b].Insts[j])), pattern(f.Blocks[b].Insts[j]))
 //@   ensures forall(b, 0, len(f.Blocks), !cnts(f.Blocks[b].Term, boxed(types.Void)) ==> nvid(f.Blocks[b].Term) == old(nvid(f.Blocks[b].Term)))
 //@   # failure only for an explicit non-zero ID that is not the rank
 //@   ensures result != nil ==> exists(k, 0, len(f.Params), nvun(f.Params[k]) && old(nvid(f.Params[k])) != 0 && old(nvid(f.Params[k])) != lkP(f, k)) || exists(b, 0, len(f.Blocks), nvun(f.Blocks[b]) && old(nvid(f.Blocks[b])) != 0 && old(nvid(f.Blocks[b])) != lkB(f, b, boxed(types.Void))) || exists(b int, j int, 0 <= b && b < len(f.Blocks) && 0 <= j && j < len(f.Blocks[b].Insts) && cnts(f.Blocks[b].Insts[j], boxed(types.Void)) && old(nvid(f.Blocks[b].Insts[j])) != 0 && old(nvid(f.Blocks[b].Insts[j])) != lkI(f, b, j, boxed(types.Void))) || exists(b, 0, len(f.Blocks), cnts(f.Blocks[b].Term, boxed(types.Void)) && old(nvid(f.Blocks[b].Term)) != 0 && old(nvid(f.Blocks[b].Term)) != lkT(f, b, boxed(types.Void)))
 //@   # numbering an already numbered function: no error, no SetID call
-//@   ensures forall(k, 0, len(f.Params), nvun(f.Params[k]) ==> old(nvid(f.Params[k])) == lkP(f, k)) && forall(b, 0, len(f.Blocks), nvun(f.Blocks[b]) ==> old(nvid(f.Blocks[b])) == lkB(f, b, boxed(types.Void))) && forall(b int, j int, 0 <= b && b < len(f.Blocks) && 0 <= j && j < len(f.Blocks[b].Insts) ==> cnts(f.Blocks[b].Insts[j], boxed(types.Void)) ==> old(nvid(f.Blocks[b].Insts[j])) == lkI(f, b, j, boxed(types.Void))) && forall(b, 0, len(f.Blocks), cnts(f.Blocks[b].Term, boxed(types.Void)) ==> old(nvid(f.Blocks[b].Term)) == lkT(f, b, boxed(types.Void))) ==> result == nil && idwrites(0) == old(idwrites(0))
+//@   ensures forall(k, 0, len(f.Params), nvun(f.Params[k]) ==> old(nvid(f.Params[k])) == lkP(f, k)) && forall(b, 0, len(f.Blocks), nvun(f.Blocks[b]) ==> old(nvid(f.Blocks[b])) == lkB(f, b, boxed(types.Void))) && forall(b int, j int, 0 <= b && b < len(f.Blocks) && 0 <= j && j < len(f.Blocks[b].Insts) ==> cnts(f.Blocks[b].Insts[j], boxed(types.Void)) ==> old(nvid(f.Blocks[b].Insts[j])) == lkI(f, b, j, boxed(types.Void)), pattern(f.Blocks[b].Insts[j])) && forall(b, 0, len(f.Blocks), cnts(f.Blocks[b].Term, boxed(types.Void)) ==> old(nvid(f.Blocks[b].Term)) == lkT(f, b, boxed(types.Void))) ==> result == nil && idwrites(0) == old(idwrites(0))
 //@   loop 0: invariant 0 <= range_i && range_i <= len(f.Params) && id >= 0 && id == lkP(f, range_i)
 //@   loop 0: invariant forall(k, 0, range_i, nvun(f.Params[k]) ==> nvid(f.Params[k]) == lkP(f, k))
 //@   loop 0: invariant forall(k, 0, range_i, nvun(f.Params[k]) ==> old(nvid(f.Params[k])) == 0 || old(nvid(f.Params[k])) == lkP(f, k))
 //@   loop 0: invariant forall(k, range_i, len(f.Params), nvid(f.Params[k]) == old(nvid(f.Params[k])))
 //@   loop 0: invariant forall(k, 0, len(f.Params), !nvun(f.Params[k]) ==> nvid(f.Params[k]) == old(nvid(f.Params[k])))
 //@   loop 0: invariant forall(b, 0, len(f.Blocks), nvid(f.Blocks[b]) == old(nvid(f.Blocks[b])))
-//@   loop 0: invariant forall(b int, j int, 0 <= b && b < len(f.Blocks) && 0 <= j && j < len(f.Blocks[b].Insts) ==> nvid(f.Blocks[b].Insts[j]) == old(nvid(f.Blocks[b].Insts[j])))
+//@   loop 0: invariant forall(b int, j int, 0 <= b && b < len(f.Blocks) && 0 <= j && j < len(f.Blocks[b].Insts) ==> nvid(f.Blocks[b].Insts[j]) == old(nvid(f.Blocks[b].Insts[j])), pattern(f.Blocks[b].Insts[j]))
 //@   loop 0: invariant forall(b, 0, len(f.Blocks), nvid(f.Blocks[b].Term) == old(nvid(f.Blocks[b].Term)))
 //@   loop 0: invariant forall(k, 0, range_i, nvun(f.Params[k]) ==> old(nvid(f.Params[k])) == lkP(f, k)) ==> idwrites(0) == old(idwrites(0))
 //@   loop 1: invariant 0 <= range_i && range_i <= len(f.Blocks) && id >= 0 && id == lkB(f, range_i, boxed(types.Void))
@@ -256,16 +256,16 @@ package ir
 //@   loop 1: invariant forall(b, 0, range_i, nvun(f.Blocks[b]) ==> nvid(f.Blocks[b]) == lkB(f, b, boxed(types.Void)))
 //@   loop 1: invariant forall(b, 0, range_i, nvun(f.Blocks[b]) ==> old(nvid(f.Blocks[b])) == 0 || old(nvid(f.Blocks[b])) == lkB(f, b, boxed(types.Void)))
 //@   loop 1: invariant forall(b, 0, len(f.Blocks), !nvun(f.Blocks[b]) ==> nvid(f.Blocks[b]) == old(nvid(f.Blocks[b])))
-//@   loop 1: invariant forall(b int, j int, 0 <= b && b < range_i && 0 <= j && j < len(f.Blocks[b].Insts) ==> cnts(f.Blocks[b].Insts[j], boxed(types.Void)) ==> nvid(f.Blocks[b].Insts[j]) == lkI(f, b, j, boxed(types.Void)))
-//@   loop 1: invariant forall(b int, j int, 0 <= b && b < range_i && 0 <= j && j < len(f.Blocks[b].Insts) ==> cnts(f.Blocks[b].Insts[j], boxed(types.Void)) ==> old(nvid(f.Blocks[b].Insts[j])) == 0 || old(nvid(f.Blocks[b].Insts[j])) == lkI(f, b, j, boxed(types.Void)))
-//@   loop 1: invariant forall(b int, j int, 0 <= b && b < len(f.Blocks) && 0 <= j && j < len(f.Blocks[b].Insts) ==> !cnts(f.Blocks[b].Insts[j], boxed(types.Void)) ==> nvid(f.Blocks[b].Insts[j]) == old(nvid(f.Blocks[b].Insts[j])))
+//@   loop 1: invariant forall(b int, j int, 0 <= b && b < range_i && 0 <= j && j < len(f.Blocks[b].Insts) ==> cnts(f.Blocks[b].Insts[j], boxed(types.Void)) ==> nvid(f.Blocks[b].Insts[j]) == lkI(f, b, j, boxed(types.Void)), pattern(f.Blocks[b].Insts[j]))
+//@   loop 1: invariant forall(b int, j int, 0 <= b && b < range_i && 0 <= j && j < len(f.Blocks[b].Insts) ==> cnts(f.Blocks[b].Insts[j], boxed(types.Void)) ==> old(nvid(f.Blocks[b].Insts[j])) == 0 || old(nvid(f.Blocks[b].Insts[j])) == lkI(f, b, j, boxed(types.Void)), pattern(f.Blocks[b].Insts[j]))
+//@   loop 1: invariant forall(b int, j int, 0 <= b && b < len(f.Blocks) && 0 <= j && j < len(f.Blocks[b].Insts) ==> !cnts(f.Blocks[b].Insts[j], boxed(types.Void)) ==> nvid(f.Blocks[b].Insts[j]) == old(nvid(f.Blocks[b].Insts[j])), pattern(f.Blocks[b].Insts[j]))
 //@   loop 1: invariant forall(b, 0, range_i, cnts(f.Blocks[b].Term, boxed(types.Void)) ==> nvid(f.Blocks[b].Term) == lkT(f, b, boxed(types.Void)))
 //@   loop 1: invariant forall(b, 0, range_i, cnts(f.Blocks[b].Term, boxed(types.Void)) ==> old(nvid(f.Blocks[b].Term)) == 0 || old(nvid(f.Blocks[b].Term)) == lkT(f, b, boxed(types.Void)))
 //@   loop 1: invariant forall(b, 0, len(f.Blocks), !cnts(f.Blocks[b].Term, boxed(types.Void)) ==> nvid(f.Blocks[b].Term) == old(nvid(f.Blocks[b].Term)))
 //@   loop 1: invariant forall(b, range_i, len(f.Blocks), nvid(f.Blocks[b]) == old(nvid(f.Blocks[b])))
-//@   loop 1: invariant forall(b int, j int, range_i <= b && b < len(f.Blocks) && 0 <= j && j < len(f.Blocks[b].Insts) ==> nvid(f.Blocks[b].Insts[j]) == old(nvid(f.Blocks[b].Insts[j])))
+//@   loop 1: invariant forall(b int, j int, range_i <= b && b < len(f.Blocks) && 0 <= j && j < len(f.Blocks[b].Insts) ==> nvid(f.Blocks[b].Insts[j]) == old(nvid(f.Blocks[b].Insts[j])), pattern(f.Blocks[b].Insts[j]))
 //@   loop 1: invariant forall(b, range_i, len(f.Blocks), nvid(f.Blocks[b].Term) == old(nvid(f.Blocks[b].Term)))
-//@   loop 1: invariant forall(k, 0, len(f.Params), nvun(f.Params[k]) ==> old(nvid(f.Params[k])) == lkP(f, k)) && forall(b, 0, range_i, nvun(f.Blocks[b]) ==> old(nvid(f.Blocks[b])) == lkB(f, b, boxed(types.Void))) && forall(b int, j int, 0 <= b && b < range_i && 0 <= j && j < len(f.Blocks[b].Insts) ==> cnts(f.Blocks[b].Insts[j], boxed(types.Void)) ==> old(nvid(f.Blocks[b].Insts[j])) == lkI(f, b, j, boxed(types.Void))) && forall(b, 0, range_i, cnts(f.Blocks[b].Term, boxed(types.Void)) ==> old(nvid(f.Blocks[b].Term)) == lkT(f, b, boxed(types.Void))) ==> idwrites(0) == old(idwrites(0))
+//@   loop 1: invariant forall(k, 0, len(f.Params), nvun(f.Params[k]) ==> old(nvid(f.Params[k])) == lkP(f, k)) && forall(b, 0, range_i, nvun(f.Blocks[b]) ==> old(nvid(f.Blocks[b])) == lkB(f, b, boxed(types.Void))) && forall(b int, j int, 0 <= b && b < range_i && 0 <= j && j < len(f.Blocks[b].Insts) ==> cnts(f.Blocks[b].Insts[j], boxed(types.Void)) ==> old(nvid(f.Blocks[b].Insts[j])) == lkI(f, b, j, boxed(types.Void)), pattern(f.Blocks[b].Insts[j])) && forall(b, 0, range_i, cnts(f.Blocks[b].Term, boxed(types.Void)) ==> old(nvid(f.Blocks[b].Term)) == lkT(f, b, boxed(types.Void))) ==> idwrites(0) == old(idwrites(0))
 //@   loop 2: invariant 0 <= range_at1 && range_at1 < len(f.Blocks) && block == f.Blocks[range_at1] && 0 <= range_i && range_i <= len(block.Insts) && id >= 0 && id == lkI(f, range_at1, range_i, boxed(types.Void))
 //@   loop 2: invariant forall(k, 0, len(f.Params), nvun(f.Params[k]) ==> nvid(f.Params[k]) == lkP(f, k))
 //@   loop 2: invariant forall(k, 0, len(f.Params), nvun(f.Params[k]) ==> old(nvid(f.Params[k])) == 0 || old(nvid(f.Params[k])) == lkP(f, k))
@@ -273,9 +273,9 @@ package ir
 //@   loop 2: invariant forall(b, 0, range_at1, nvun(f.Blocks[b]) ==> nvid(f.Blocks[b]) == lkB(f, b, boxed(types.Void)))
 //@   loop 2: invariant forall(b, 0, range_at1, nvun(f.Blocks[b]) ==> old(nvid(f.Blocks[b])) == 0 || old(nvid(f.Blocks[b])) == lkB(f, b, boxed(types.Void)))
 //@   loop 2: invariant forall(b, 0, len(f.Blocks), !nvun(f.Blocks[b]) ==> nvid(f.Blocks[b]) == old(nvid(f.Blocks[b])))
-//@   loop 2: invariant forall(b int, j int, 0 <= b && b < range_at1 && 0 <= j && j < len(f.Blocks[b].Insts) ==> cnts(f.Blocks[b].Insts[j], boxed(types.Void)) ==> nvid(f.Blocks[b].Insts[j]) == lkI(f, b, j, boxed(types.Void)))
-//@   loop 2: invariant forall(b int, j int, 0 <= b && b < range_at1 && 0 <= j && j < len(f.Blocks[b].Insts) ==> cnts(f.Blocks[b].Insts[j], boxed(types.Void)) ==> old(nvid(f.Blocks[b].Insts[j])) == 0 || old(nvid(f.Blocks[b].Insts[j])) == lkI(f, b, j, boxed(types.Void)))
-//@   loop 2: invariant forall(b int, j int, 0 <= b && b < len(f.Blocks) && 0 <= j && j < len(f.Blocks[b].Insts) ==> !cnts(f.Blocks[b].Insts[j], boxed(types.Void)) ==> nvid(f.Blocks[b].Insts[j]) == old(nvid(f.Blocks[b].Insts[j])))
+//@   loop 2: invariant forall(b int, j int, 0 <= b && b < range_at1 && 0 <= j && j < len(f.Blocks[b].Insts) ==> cnts(f.Blocks[b].Insts[j], boxed(types.Void)) ==> nvid(f.Blocks[b].Insts[j]) == lkI(f, b, j, boxed(types.Void)), pattern(f.Blocks[b].Insts[j]))
+//@   loop 2: invariant forall(b int, j int, 0 <= b && b < range_at1 && 0 <= j && j < len(f.Blocks[b].Insts) ==> cnts(f.Blocks[b].Insts[j], boxed(types.Void)) ==> old(nvid(f.Blocks[b].Insts[j])) == 0 || old(nvid(f.Blocks[b].Insts[j])) == lkI(f, b, j, boxed(types.Void)), pattern(f.Blocks[b].Insts[j]))
+//@   loop 2: invariant forall(b int, j int, 0 <= b && b < len(f.Blocks) && 0 <= j && j < len(f.Blocks[b].Insts) ==> !cnts(f.Blocks[b].Insts[j], boxed(types.Void)) ==> nvid(f.Blocks[b].Insts[j]) == old(nvid(f.Blocks[b].Insts[j])), pattern(f.Blocks[b].Insts[j]))
 //@   loop 2: invariant forall(b, 0, range_at1, cnts(f.Blocks[b].Term, boxed(types.Void)) ==> nvid(f.Blocks[b].Term) == lkT(f, b, boxed(types.Void)))
 //@   loop 2: invariant forall(b, 0, range_at1, cnts(f.Blocks[b].Term, boxed(types.Void)) ==> old(nvid(f.Blocks[b].Term)) == 0 || old(nvid(f.Blocks[b].Term)) == lkT(f, b, boxed(types.Void)))
 //@   loop 2: invariant forall(b, 0, len(f.Blocks), !cnts(f.Blocks[b].Term, boxed(types.Void)) ==> nvid(f.Blocks[b].Term) == old(nvid(f.Blocks[b].Term)))
@@ -285,9 +285,9 @@ package ir
 //@   loop 2: invariant forall(j, 0, range_i, cnts(f.Blocks[range_at1].Insts[j], boxed(types.Void)) ==> old(nvid(f.Blocks[range_at1].Insts[j])) == 0 || old(nvid(f.Blocks[range_at1].Insts[j])) == lkI(f, range_at1, j, boxed(types.Void)))
 //@   loop 2: invariant forall(j, range_i, len(block.Insts), nvid(f.Blocks[range_at1].Insts[j]) == old(nvid(f.Blocks[range_at1].Insts[j])))
 //@   loop 2: invariant forall(b, range_at1 + 1, len(f.Blocks), nvid(f.Blocks[b]) == old(nvid(f.Blocks[b])))
-//@   loop 2: invariant forall(b int, j int, range_at1 + 1 <= b && b < len(f.Blocks) && 0 <= j && j < len(f.Blocks[b].Insts) ==> nvid(f.Blocks[b].Insts[j]) == old(nvid(f.Blocks[b].Insts[j])))
+//@   loop 2: invariant forall(b int, j int, range_at1 + 1 <= b && b < len(f.Blocks) && 0 <= j && j < len(f.Blocks[b].Insts) ==> nvid(f.Blocks[b].Insts[j]) == old(nvid(f.Blocks[b].Insts[j])), pattern(f.Blocks[b].Insts[j]))
 //@   loop 2: invariant forall(b, range_at1, len(f.Blocks), nvid(f.Blocks[b].Term) == old(nvid(f.Blocks[b].Term)))
-//@   loop 2: invariant forall(k, 0, len(f.Params), nvun(f.Params[k]) ==> old(nvid(f.Params[k])) == lkP(f, k)) && forall(b, 0, range_at1 + 1, nvun(f.Blocks[b]) ==> old(nvid(f.Blocks[b])) == lkB(f, b, boxed(types.Void))) && forall(b int, j int, 0 <= b && b < range_at1 && 0 <= j && j < len(f.Blocks[b].Insts) ==> cnts(f.Blocks[b].Insts[j], boxed(types.Void)) ==> old(nvid(f.Blocks[b].Insts[j])) == lkI(f, b, j, boxed(types.Void))) && forall(j, 0, range_i, cnts(f.Blocks[range_at1].Insts[j], boxed(types.Void)) ==> old(nvid(f.Blocks[range_at1].Insts[j])) == lkI(f, range_at1, j, boxed(types.Void))) && forall(b, 0, range_at1, cnts(f.Blocks[b].Term, boxed(types.Void)) ==> old(nvid(f.Blocks[b].Term)) == lkT(f, b, boxed(types.Void))) ==> idwrites(0) == old(idwrites(0))
+//@   loop 2: invariant forall(k, 0, len(f.Params), nvun(f.Params[k]) ==> old(nvid(f.Params[k])) == lkP(f, k)) && forall(b, 0, range_at1 + 1, nvun(f.Blocks[b]) ==> old(nvid(f.Blocks[b])) == lkB(f, b, boxed(types.Void))) && forall(b int, j int, 0 <= b && b < range_at1 && 0 <= j && j < len(f.Blocks[b].Insts) ==> cnts(f.Blocks[b].Insts[j], boxed(types.Void)) ==> old(nvid(f.Blocks[b].Insts[j])) == lkI(f, b, j, boxed(types.Void)), pattern(f.Blocks[b].Insts[j])) && forall(j, 0, range_i, cnts(f.Blocks[range_at1].Insts[j], boxed(types.Void)) ==> old(nvid(f.Blocks[range_at1].Insts[j])) == lkI(f, range_at1, j, boxed(types.Void))) && forall(b, 0, range_at1, cnts(f.Blocks[b].Term, boxed(types.Void)) ==> old(nvid(f.Blocks[b].Term)) == lkT(f, b, boxed(types.Void))) ==> idwrites(0) == old(idwrites(0))
 //@ # ==== generated by /verif/tools/gen_ids_contracts.py: end ====
 
 //@ # ==== generated by /verif/tools/gen_gep_contracts.py: begin ====
@@ -304,6 +304,7 @@ package ir
 //@   ensures typeis(gunwrap(index), "*constant.Vector") ==> (result.HasVal <==> (len(cast(gunwrap(index), "*constant.Vector").Elems) > 0 && gsplat(cast(gunwrap(index), "*constant.Vector"))))
 //@   ensures typeis(gunwrap(index), "*constant.Vector") && result.HasVal ==> result.Val == gival(cast(gunwrap(index), "*constant.Vector").Elems[0])
 //@   ensures !typeis(gunwrap(index), "*constant.Int") && !typeis(gunwrap(index), "*constant.ZeroInitializer") && !typeis(gunwrap(index), "*constant.Vector") ==> !result.HasVal && result.VectorLen == 0
+//@   ensures !result.HasVal ==> result.Val == 0
 //@   loop 0: invariant 0 <= range_i && range_i <= len(index.Elems)
 //@   loop 0: invariant forall(j, 0, range_i, typeis(index.Elems[j], "*constant.Int") && gival(index.Elems[j]) == gival(index.Elems[0]))
 //@   loop 0: invariant range_i > 0 ==> val == gival(index.Elems[0])
@@ -1714,3 +1715,26 @@ package ir
 //@   props C08 C13 C14
 //@   assigns nothing
 //@   ensures result == (len(i.GlobalName) == 0)
+
+//@ # ---------------------------------------------------------------- C07 (instruction side) ---
+//@ # gepInstType classifies the operands and applies gep.ResultType; its result obeys LLVM's rule stated
+//@ # over the operands themselves (gepPre/gepPost, specs/llvm_gep.spec).
+//@ func gepInstType
+//@   props C07
+//@   requires gepPre(elemType, src, indices)
+//@   assigns caches
+//@   ensures gepPost(result, elemType, src, indices, old(gwalkV(elemType, indices, len(indices))))
+//@   loop 0: invariant 0 <= range_i && range_i <= len(indices) && len(idxs) == range_i && (cap(idxs) == 0 || fresh(idxs)) && gpaired(idxs, indices)
+//@   loop 0: invariant forall(k, 0, range_i, idxs[k].HasVal == gvHas(indices[k]) && idxs[k].Val == gvVal(indices[k]) && idxs[k].VectorLen == gvLen(indices[k]) && idxs[k].Scalable == gvSc(indices[k]))
+//@ func (*InstGetElementPtr).Type
+//@   props C06 C07 C14
+//@   requires inst != nil && inst.Src != nil && gepPre(inst.ElemType, vtype(inst.Src), inst.Indices)
+//@   requires inst.Typ == nil || gepPost(inst.Typ, inst.ElemType, vtype(inst.Src), inst.Indices, gwalkV(inst.ElemType, inst.Indices, len(inst.Indices)))
+//@   assigns caches
+//@   ensures gepPost(result, inst.ElemType, vtype(inst.Src), inst.Indices, old(gwalkV(inst.ElemType, inst.Indices, len(inst.Indices)))) && inst.Typ == result
+//@ func NewGetElementPtr
+//@   props C03 C07
+//@   requires src != nil && gepPre(elemType, vtype(src), indices)
+//@   assigns caches
+//@   ensures result != nil && fresh(result) && result.ElemType == elemType && result.Src == src && len(result.Indices) == len(indices) && forall(k, 0, len(indices), result.Indices[k] == indices[k])
+//@   ensures gepPost(result.Typ, elemType, vtype(src), indices, old(gwalkV(elemType, indices, len(indices))))
